@@ -407,22 +407,33 @@ SCEN["core"] = {
         ("no-args", "X()", "LenaTypeError"),
         ("bad-first", "X(5, L.inc)", "LenaTypeError"),
         ("bad-tail", "X(L.Gen(), 5)", "LenaTypeError"),
+        ("only-context-elements", "X(L.imp('lena.meta').SetContext('a', 1))", "LenaTypeError"),
+        ("context-element-first", "list(X(L.imp('lena.meta').SetContext('a', 1), [1, 2])())", None),
     ],
     "FillComputeSeq": [
         ("ok", "L.fc(X(L.inc, L.FC(), L.inc), [1, 2])", None),
         ("no-fc", "X(L.inc)", "LenaTypeError"),
         ("bad-before", "X(5, L.FC())", "LenaTypeError"),
+        ("empty", "X()", "LenaTypeError"),
+        ("only-context-elements", "X(L.imp('lena.meta').SetContext('a', 1))", "LenaTypeError"),
+        ("only-context-elements-2", "X(L.imp('lena.meta').SetContext('a', 1), "
+         "L.imp('lena.meta').StoreContext())", "LenaTypeError"),
     ],
     "FillSeq": [
         ("ok", "(lambda s: (X(L.inc, s).fill(1), s.got)[1])(L.Store())", None),
         ("empty", "X()", "LenaTypeError"),
         ("bad-last", "X(L.inc, 5)", "LenaTypeError"),
+        ("only-context-elements", "X(L.imp('lena.meta').SetContext('a', 1))", "LenaTypeError"),
     ],
     "FillRequestSeq": [
         ("ok", "L.fr(X(L.inc, L.FR(), L.inc, bufsize=2, buffer_input=True, reset=True), [1, 2])",
          None),
         ("no-fr", "X(L.inc)", "LenaTypeError"),
         ("bad-kwarg", "X(L.FR(), foo=1)", "LenaTypeError"),
+        ("empty", "X(bufsize=1, buffer_input=True, reset=False)", "LenaTypeError"),
+        ("only-context-elements", "X(L.imp('lena.meta').SetContext('a', 1), bufsize=1, "
+         "buffer_input=True, reset=False)", "LenaTypeError"),
+        ("repr", "repr(X(L.FR(), bufsize=1, buffer_input=True, reset=True)).split('<')[0]", None),
     ],
     "Split": [
         ("run", "list(X([(L.inc,), (L.inc, L.inc)]).run([1, 2]))", None),
